@@ -3,10 +3,171 @@ import Sentinel.Model.Bucket
 /-!
 # C08 — Sliding-window statistics equal the aligned-bucket reference for any history
 (property theorems only; helper lemmas live in `Sentinel/Lemmas/LeapArray.lean`)
+
+Reading guide.  `h : List (Nat × M)` is the history of recorded events `(timestamp, payload)`,
+`Mono now0 h` says timestamps never decrease from the creation time `now0`.  `refW L h lo hi` is the
+reference: the sum of the payloads whose *bucket start* `cbs L t` lies in `[lo, hi]`.  The model
+functions (`mk`, `runAdds`, `viewSum`, `valuesAt`, …) are the code-shaped definitions of
+`Sentinel/Model/LeapArray.lean`, the ones the driver executes against the implementation.
 -/
 namespace Sentinel.C08
 open Sentinel.LA
 
-theorem placeholder : True := trivial
+/-! ## the payload really is a commutative monoid -/
+
+@[ext] theorem Bucket.ext' {a b : Bucket} (h1 : a.pass = b.pass) (h2 : a.block = b.block)
+    (h3 : a.complete = b.complete) (h4 : a.error = b.error) (h5 : a.rt = b.rt) (h6 : a.hr = b.hr)
+    (h7 : a.mc = b.mc) : a = b := by
+  cases a; cases b; simp_all
+
+@[simp] theorem add_pass (a b : Bucket) : (a + b).pass = a.pass + b.pass := rfl
+@[simp] theorem add_block (a b : Bucket) : (a + b).block = a.block + b.block := rfl
+@[simp] theorem add_complete (a b : Bucket) : (a + b).complete = a.complete + b.complete := rfl
+@[simp] theorem add_error (a b : Bucket) : (a + b).error = a.error + b.error := rfl
+@[simp] theorem add_rt (a b : Bucket) : (a + b).rt = a.rt + b.rt := rfl
+@[simp] theorem add_hr (a b : Bucket) : (a + b).hr = max a.hr b.hr := rfl
+@[simp] theorem add_mc (a b : Bucket) : (a + b).mc = max a.mc b.mc := rfl
+@[simp] theorem zero_pass : (0 : Bucket).pass = 0 := rfl
+@[simp] theorem zero_block : (0 : Bucket).block = 0 := rfl
+@[simp] theorem zero_complete : (0 : Bucket).complete = 0 := rfl
+@[simp] theorem zero_error : (0 : Bucket).error = 0 := rfl
+@[simp] theorem zero_rt : (0 : Bucket).rt = 0 := rfl
+@[simp] theorem zero_hr : (0 : Bucket).hr = 0 := rfl
+@[simp] theorem zero_mc : (0 : Bucket).mc = 0 := rfl
+
+instance : AddCommMonoid Bucket where
+  add_assoc a b c := by ext <;> simp [Nat.add_assoc, max_assoc]
+  zero_add a := by ext <;> simp
+  add_zero a := by ext <;> simp
+  add_comm a b := by ext <;> simp [Nat.add_comm, max_comm]
+  nsmul := nsmulRec
+
+/-! ## generic core (any commutative-monoid payload) -/
+section generic
+variable {M : Type} [AddCommMonoid M]
+
+theorem sum_filter_eq_readW (sl : List (Slot M)) (p : Slot M → Bool) (lo hi : Nat)
+    (hp : ∀ s ∈ sl, (lo ≤ s.start ∧ s.start ≤ hi) → p s = true) :
+    ((sl.filter fun s => p s && decide (lo ≤ s.start ∧ s.start ≤ hi)).map (·.val)).sum = readW sl lo hi := by
+  unfold readW
+  induction sl with
+  | nil => rfl
+  | cons s r ih =>
+    have ihr := ih (fun s hs => hp s (List.mem_cons_of_mem _ hs))
+    by_cases hw : lo ≤ s.start ∧ s.start ≤ hi
+    · have := hp s (List.mem_cons_self ..) hw
+      simp only [List.filter_cons, this, hw, decide_true, Bool.and_self, if_true, List.map_cons,
+        List.sum_cons, and_self] at ihr ⊢
+      rw [ihr]
+    · simp only [List.filter_cons, hw, decide_false, Bool.and_false, List.map_cons,
+        List.sum_cons, if_false, zero_add] at ihr ⊢
+      simpa using ihr
+
+/-- **C08, sums** (`GetSum`, and through it QPS / AvgRT / MinRT / MaxConcurrency, which are functions
+of the window payload): for every geometry `(n, L)`, every view interval `Iv ≤ n·L`, every monotone
+history since creation and every read time `now` not before the last event, the code-shaped view sum
+equals the reference over the aligned window `[cbs now + L - Iv, cbs now]` (subtraction saturating
+at 0: the repaired `getBucketStartRange`). Nothing older is counted, nothing inside is lost. -/
+theorem viewSum_eq_ref (n L now0 : Nat) (hn : 0 < n) (hL : 0 < L) (h : List (Nat × M)) (mono : Mono now0 h)
+    (now : Nat) (hnow : ∀ e ∈ h, e.1 ≤ now) (hnow0 : now0 ≤ now) (Iv : Nat) (hIv : Iv ≤ n * L) (hIv0 : 0 < Iv) :
+    viewSum (runAdds (mk n L now0) h) Iv now = refW L h (cbs L now + L - Iv) (cbs L now) := by
+  have hLn := runAdds_nL (mk n L now0 : Arr M) h
+  have hL' : (runAdds (mk n L now0 : Arr M) h).L = L := by simpa [mk] using hLn.1
+  have hn' : (runAdds (mk n L now0 : Arr M) h).n = n := by simpa [mk] using hLn.2
+  unfold viewSum viewVals rangeOf
+  simp only [hL', hn']
+  rw [sum_filter_eq_readW]
+  · exact window_eq_ref n L now0 hn hL h mono now hnow hnow0 _ _ (by omega)
+  · intro s _ hw
+    have hc : cbs L now ≤ now := by unfold cbs; omega
+    unfold deprecated
+    have : s.start ≤ now := le_trans hw.2 hc
+    simp only [this, if_true]
+    have hlt : now < cbs L now + L := by
+      unfold cbs; have := Nat.mod_lt now hL; omega
+    simp; omega
+
+/-- **C08, previous window** (`GetPreviousQPS` reads at `now - Lv`): the same equality one view bucket
+earlier, under the property's own side condition `Iv + Lv ≤ n·L` (the array cannot retain what it has
+no slot for). -/
+theorem prevSum_eq_ref (n L now0 : Nat) (hn : 0 < n) (hL : 0 < L) (h : List (Nat × M)) (mono : Mono now0 h)
+    (now : Nat) (hnow : ∀ e ∈ h, e.1 ≤ now) (hnow0 : now0 ≤ now) (Iv Lv : Nat) (hIv : Iv + Lv ≤ n * L)
+    (hLv : Lv ≤ now) (hdiv : L ∣ Lv) :
+    viewSum (runAdds (mk n L now0) h) Iv (now - Lv) = refW L h (cbs L (now - Lv) + L - Iv) (cbs L (now - Lv)) := by
+  have hLn := runAdds_nL (mk n L now0 : Arr M) h
+  have hL' : (runAdds (mk n L now0 : Arr M) h).L = L := by simpa [mk] using hLn.1
+  have hn' : (runAdds (mk n L now0 : Arr M) h).n = n := by simpa [mk] using hLn.2
+  obtain ⟨k, rfl⟩ := hdiv
+  have hcb : cbs L (now - L * k) + L * k = cbs L now := by
+    rw [cbs_eq, cbs_eq]
+    have : (now - L * k) / L = now / L - k := Nat.sub_mul_div_of_le now L k hLv
+    rw [this]
+    have hk : k ≤ now / L := by
+      rw [Nat.le_div_iff_mul_le hL, Nat.mul_comm]; exact hLv
+    rw [Nat.sub_mul]
+    have : k * L ≤ now / L * L := Nat.mul_le_mul_right _ hk
+    rw [Nat.mul_comm L k]; omega
+  unfold viewSum viewVals rangeOf
+  simp only [hL', hn']
+  rw [sum_filter_eq_readW]
+  · exact window_eq_ref n L now0 hn hL h mono now hnow hnow0 _ _ (by omega)
+  · intro s _ hw
+    have hc : cbs L (now - L * k) ≤ now - L * k := by unfold cbs; omega
+    unfold deprecated
+    have : s.start ≤ now - L * k := le_trans hw.2 hc
+    simp only [this, if_true]
+    have hlt : now - L * k < cbs L (now - L * k) + L := by
+      unfold cbs; have := Nat.mod_lt (now - L * k) hL; omega
+    simp; omega
+
+/-- **nothing is lost**: along a monotone history no recording is ever dropped (`add` always finds a bucket) -/
+theorem add_never_dropped (a : Arr M) (h : List (Nat × M)) (t0 latest t : Nat) (x : M)
+    (inv : Inv a h t0 latest) (hle : latest ≤ t) : (add a t x).2 = true :=
+  (add_step a h t0 latest t x inv hle).2
+
+end generic
+
+/-! ## the concrete getters -/
+
+/-- `GetSum(ev)` of a view equals the reference count of `ev` in the aligned window -/
+theorem getSum_eq_ref (n L now0 : Nat) (hn : 0 < n) (hL : 0 < L) (h : List (Nat × Bucket)) (mono : Mono now0 h)
+    (now : Nat) (hnow : ∀ e ∈ h, e.1 ≤ now) (hnow0 : now0 ≤ now) (Iv : Nat) (hIv : Iv ≤ n * L) (hIv0 : 0 < Iv) (ev : Ev) :
+    vSum (runAdds (mk n L now0) h) Iv now ev = (refW L h (cbs L now + L - Iv) (cbs L now)).get ev := by
+  unfold vSum; rw [viewSum_eq_ref n L now0 hn hL h mono now hnow hnow0 Iv hIv hIv0]
+
+/-- `MinRT` / `MaxConcurrency` of a view equal the reference minimum / peak over the aligned window -/
+theorem minRt_maxConc_eq_ref (n L now0 : Nat) (hn : 0 < n) (hL : 0 < L) (h : List (Nat × Bucket)) (mono : Mono now0 h)
+    (now : Nat) (hnow : ∀ e ∈ h, e.1 ≤ now) (hnow0 : now0 ≤ now) (Iv : Nat) (hIv : Iv ≤ n * L) (hIv0 : 0 < Iv) :
+    vMinRt (runAdds (mk n L now0) h) Iv now = max 1 (refW L h (cbs L now + L - Iv) (cbs L now)).minRt ∧
+    vMaxConc (runAdds (mk n L now0) h) Iv now = (refW L h (cbs L now + L - Iv) (cbs L now)).mc := by
+  unfold vMinRt vMaxConc; rw [viewSum_eq_ref n L now0 hn hL h mono now hnow hnow0 Iv hIv hIv0]; exact ⟨rfl, rfl⟩
+
+/-- the window payload's counters are plain sums, its `mc` a maximum and its `minRt` a minimum capped at 60000:
+    what "computed from the multiset of recorded events" means for each getter -/
+theorem ref_append_get (L : Nat) (h : List (Nat × Bucket)) (t : Nat) (x : Bucket) (lo hi : Nat) (ev : Ev) :
+    (refW L (h ++ [(t, x)]) lo hi).get ev =
+      (refW L h lo hi).get ev + (if lo ≤ cbs L t ∧ cbs L t ≤ hi then x.get ev else 0) := by
+  rw [refW_append]; split_ifs <;> cases ev <;> simp [Bucket.get]
+
+/-- a view is constructible exactly when it tiles the parent's buckets:
+    `validView = 0 ↔` both geometries are well formed, the parent interval is a multiple of the view
+    interval and the view bucket is a multiple of the parent bucket -/
+theorem validView_iff_tiles (sc Iv psc pI : Nat) :
+    validView sc Iv psc pI = 0 ↔
+      (Iv ≠ 0 ∧ sc ≠ 0 ∧ sc ∣ Iv) ∧ (pI ≠ 0 ∧ psc ≠ 0 ∧ psc ∣ pI) ∧ Iv ∣ pI ∧ (pI / psc) ∣ (Iv / sc) := by
+  unfold validView
+  simp only [Nat.dvd_iff_mod_eq_zero]
+  split_ifs <;> simp_all <;> omega
+
+/-! ## non-vacuity: concrete histories meet the hypotheses, and the pinned defect is real -/
+
+example : Mono 100 [(100, evBucket .pass 3), (700, evBucket .pass 2)] := by simp [Mono]
+
+/-- the pre-repair arithmetic (`rangeOfWrap`, uint64 wrap-around) lost the window for `now < Iv - L`:
+    array 2×500 created at t=100, view interval 1000 read at t=100 — the wrapped start excludes the
+    only event although the reference contains it. -/
+theorem underflow_witness :
+    (rangeOfWrap 500 1000 100).1 > 100 ∧ (rangeOf 500 1000 100) = (0, 0) ∧
+    (refW 500 [(100, evBucket .pass 1)] 0 (cbs 500 100)).pass = 1 := by decide
 
 end Sentinel.C08
